@@ -54,7 +54,8 @@ def value_nodes_from_path(sg, focus, path_val, target_graph, inverse: bool = Fal
                 raise ReportableRuntimeError("A list of SHACL Paths must contain at least two path items.")
             else:
                 go_deeper = False
-        rest_node = next(iter(rest_nodes))
+        # a list cell without rdf:rest ends the list, like rdf:rest rdf:nil
+        rest_node = next(iter(rest_nodes)) if rest_nodes else RDF.nil
         if rest_node == RDF.nil:
             if recursion == 0:
                 raise ReportableRuntimeError("A list of SHACL Paths must contain at least two path items.")
